@@ -24,6 +24,13 @@ class DC:
     q: str = "dq"
 
 
+class PlainCursor:
+    """A plain class: pydantic cannot build a schema for it, so conversion fails and the value arrives as sent."""
+
+    def __init__(self, pos: int = 0) -> None:
+        self.pos = pos
+
+
 class ModelAllDefaults(pydantic.BaseModel):
     n: int = 3
     t: str = "t"
@@ -85,9 +92,9 @@ META = {
 }
 
 TWIN = "VW"  # V / W: two distinct classes with identical repr (only used in the dedicated twin signatures)
-FRONT = "uAisMDfTN"  # kinds without default (f float, T Tuple[int, ...], N model whose fields all have defaults)
+FRONT = "uAisMDfTNK"  # kinds without default (f float, T Tuple[int, ...], N model whose fields all have defaults)
 BACK = "dPCQ"  # kinds with default (annotated default, str dependency, Context, int dependency)
-ANNOT = {"u": None, "A": "Any", "i": "int", "s": "str", "M": "Model", "D": "DC", "d": "int", "f": "float", "T": "TupleOfInt", "N": "ModelAllDefaults", "V": "EventV1", "W": "EventV2"}
+ANNOT = {"u": None, "A": "Any", "i": "int", "s": "str", "M": "Model", "D": "DC", "d": "int", "f": "float", "T": "TupleOfInt", "N": "ModelAllDefaults", "V": "EventV1", "W": "EventV2", "K": "PlainCursor"}
 
 
 def signatures(tier: str) -> List[Tuple[str, str]]:
@@ -120,7 +127,7 @@ def build_function(pos: str, tail: str, rec: List[Any]) -> Any:
         names.append(nm)
         if k == "u":
             params.append(nm)
-        elif k in "AisMDfTNVW":
+        elif k in "AisMDfTNVWK":
             params.append(f"{nm}: {ANNOT[k]}")
         elif k == "d":
             params.append(f"{nm}: int = 5")
@@ -137,7 +144,7 @@ def build_function(pos: str, tail: str, rec: List[Any]) -> Any:
             names.append(nm)
             params.append(f"{nm}: int" if k == "I" else nm)
     src = f"async def gen_task({', '.join(params)}):\n    _rec.append(dict({', '.join(f'{n}={n}' for n in names)}))\n    return None\n"
-    ns = {"_rec": rec, "Any": Any, "Model": Model, "DC": DC, "TupleOfInt": TupleOfInt, "ModelAllDefaults": ModelAllDefaults, "EventV1": EventV1, "EventV2": EventV2, "TaskiqDepends": TaskiqDepends, "the_dep": the_dep, "the_int_dep": the_int_dep,
+    ns = {"_rec": rec, "Any": Any, "Model": Model, "DC": DC, "TupleOfInt": TupleOfInt, "ModelAllDefaults": ModelAllDefaults, "EventV1": EventV1, "EventV2": EventV2, "PlainCursor": PlainCursor, "TaskiqDepends": TaskiqDepends, "the_dep": the_dep, "the_int_dep": the_int_dep,
           "Context": Context, "__name__": "mc.props.c08"}
     exec(src, ns)  # noqa: S102
     fn = ns["gen_task"]
@@ -152,6 +159,11 @@ def value_for(kind: str, scheme: str, j: int) -> Any:
     if scheme == "falsy":
         # falsy but not None: conversion must still happen (0 -> 0.0, [] -> (), {} -> model with defaults)
         return {"i": 0, "d": 0, "I": 0, "f": 0, "s": "", "M": {}, "D": {}, "N": {}, "T": []}.get(kind, [])
+    if kind == "K":
+        return {"pos": j} if scheme != "nonconv" else f"cursor{j}"
+    if scheme == "inst" and kind in "uA":
+        # a model instance with fields left at their defaults, sent to a parameter that is not annotated with it
+        return ModelAllDefaults(n=j) if j % 2 == 0 else Model(x=j)
     if kind in "VW":
         if scheme in ("nonconv",):
             return {"id": f"bad{j}"}
@@ -216,7 +228,7 @@ _ADAPTERS: Dict[Any, Any] = {}
 
 def expected_value(kind: str, sent: Any, validate: bool) -> Any:
     w = wire_form(sent)
-    if not validate or kind in ("u", "U", "A") or w is None:
+    if not validate or kind in ("u", "U", "A", "K") or w is None:
         return w
     ann = ANNOT_OBJ[kind]
     ad = _ADAPTERS.get(ann)
@@ -383,7 +395,7 @@ def _sig_text(pos: str, tail: str) -> str:
     parts = []
     for j, k in enumerate(pos):
         parts.append({"V": f"p{j}: Event(v1)", "W": f"p{j}: Event(v2)", "u": f"p{j}", "A": f"p{j}: Any", "i": f"p{j}: int", "s": f"p{j}: str", "M": f"p{j}: Model", "D": f"p{j}: DC",
-                      "f": f"p{j}: float", "T": f"p{j}: Tuple[int, ...]", "N": f"p{j}: ModelAllDefaults",
+                      "f": f"p{j}: float", "T": f"p{j}: Tuple[int, ...]", "N": f"p{j}: ModelAllDefaults", "K": f"p{j}: PlainCursor",
                       "d": f"p{j}: int = 5", "P": f"p{j}=Depends(dep)", "Q": f"p{j}: int = Depends(int_dep)", "C": f"p{j}: Context=Depends()"}[k])
     if tail:
         parts.append("*")
